@@ -14,6 +14,22 @@ CHECKS = {
    ref='DESIGN.md §4 C01'),
 }
 
+CHECKS['C04'] = dict(
+   technique='stateless exhaustive DFS over bit-string operation histories (states rebuilt by replay) plus complete single-operation product sweep, against a Vec-of-bits reference model',
+   text='All operation sequences of length 5 over a 78 (quick) / 152 (thorough) operation alphabet on a pool of 3 bit-strings (fresh, borrowed static, hex, builder, read, peek, seek, substr, split_at, append, insert, invert, detach, clone, drop) with every observer checked on every live value after every step; and every bit-string of length 0..=9/11 x 8 start alignments x 6 ownership recipes x 2 junk patterns x every operation with every small argument. Ownership classes reached are tabulated; a class never reached is a machinery error.',
+   note='Reference model = Vec of bits; slice() may decline for unaligned values; buffers longer than a few bytes and histories longer than 5 operations are not covered.',
+   ref='DESIGN.md §4 C04')
+CHECKS['C09'] = dict(
+   technique='exhaustive product sweep of every arithmetic/comparison/bitwise word over boundary alphabets, a complete small square and the full type matrix, against checked-i128 / IEEE f64 reference',
+   text='28 words x (boundary alphabet squared + every pair in [-17,17]^2 (quick) / [-64,64]^2 (thorough)) x every shift count 0..=127 x real alphabet squared x full operand type matrix, each executed on the real interpreter under a sentinel; result must be the exact value when representable, otherwise wrapped value or IntegerOverflow; division errors and type-error payload rule checked.',
+   note='Reference = Rust checked i128 / f64 operations. NaN for comparisons/min/max, shift counts outside 0..=127 and >int outside the i128 range are left unspecified by the property and not enumerated.',
+   ref='DESIGN.md §4 C09')
+CHECKS['C16'] = dict(
+   technique='exhaustive enumeration of all strings up to a length bound over adversarial alphabets, lexed by the real lexer and by an independent reference tokenizer; print->read round trip over complete small value sets',
+   text='Seven families: all strings <= 5 (quick) / 6 (thorough) over a 27-character adversarial alphabet (termination within len+2 calls, tiling by last_substr, token agreement), all integer spellings (sign x radix prefix x digit bodies + boundary spellings around +-2^127), reals, string bodies, bit-string bodies, comments, and print->read of ints, all bit-strings of 0..=12 bits and nested vectors/maps.',
+   note='Reference tokenizer written from README + pinned lexer tests; typographic quotes and non-ASCII whitespace are undocumented (only generic obligations checked there); strings longer than the bound not covered.',
+   ref='DESIGN.md §4 C16')
+
 NOT_BUILT = {}
 
 props = [json.loads(l) for l in open('/verif/properties.jsonl')]
